@@ -1,77 +1,48 @@
-(** C06, no-clear-on-disconnect: a session end touches no hold and no lease (corrected statement [T_C06_noclear']). *)
+(** C06, no-clear-on-disconnect: a session end touches no hold, no lease and no session entry that lists a hold
+    ([T_C06_noclear], full strength, over reachable states). Work package svsess / svfix.
+
+    History: with DestroySession's "session holds nothing" check (pc VDsNoClear) and the deletion (pc VDsDestroy) in two
+    critical sections, an AddLock between them was deleted with the session (finding F-NOCLEAR-RACE, witness
+    [C06_noclear_refuted] of the earlier model). The code was repaired (sessionMgr.DestroySessionIfEmpty: check and delete
+    in ONE critical section) and the model follows it: the step at VDsNoClear deletes the session entry only if it is
+    empty, and under no-clear DestroySession has no other step ([vi_ds_noclear]). The old schedule is replayed in
+    SvSessWit.v ([C06_noclear_race_closed]): the entry stays listed. *)
 From Coq Require Import Lia ZifyBool ZifyNat.
 From Ldlm Require Import Model.Base Model.Err Model.Sv Proofs.SvDefs Proofs.SvSessBase Proofs.SvSessThr.
 From RecordUpdate Require Import RecordSet.
 Import RecordSetNotations.
 Local Open Scope Z_scope.
 
-(** [T_C06_noclear] of SvDefs.v is false as stated:
-    (1) it has no reachability premise, and a thread [SConnEnd] at pc [VDsTmRemove (c :: _)] / [VDsUnlock c _] changes
-        [v_timers] / [v_locks] whatever [sc_noclear] says (those pcs are unreachable under no-clear: [nc_pcs] below);
-    (2) on a REACHABLE state the step at pc [VDsDestroy] deletes entries of the ending session that were written between
-        the "session holds nothing" check (VDsNoClear) and the deletion: theorem [C06_noclear_refuted] in SvSessWit.v,
-        schedule
-          cfg = SvCfg true true;
-          [VConnect A; VCall 1 (STry A n k 1 None); VRun 1; VConnEnd A; VRun 1000; VRun 1000; VRun 1; VRun 1000]
-        (grant; connection ends; DestroySession: flag, check (nothing listed); the grant's AddLock; DestroySession's
-        sessionMgr.DestroySession deletes the session with the new entry: the hold stays live, unlisted and absent from the
-        state file). Not an instance of F-LEAK: the entry is written BEFORE the destroy.
-    The corrected statement: reachable states; locks, timers and timer heap are never touched; entries of other sessions are
-    never touched; entries of the ending session survive every step except the one at pc VDsDestroy. *)
-Definition T_C06_noclear' : Prop := ∀ cfg s tid t sid,
-  vreach cfg s → sc_noclear cfg = true → v_thr s !! tid = Some t → st_op t = SConnEnd sid →
-  let s' := vstep cfg s (VRun tid) in
-  v_locks s' = v_locks s ∧ v_timers s' = v_timers s ∧ v_theap s' = v_theap s ∧
-  (∀ sid' c, entry_of s sid' c → (sid' = sid ∧ st_pc t = VDsDestroy) ∨ entry_of s' sid' c).
-
-(** under no-clear the unlocking loop of DestroySession is never entered *)
-Definition nc_pc (pc : spc) : Prop := match pc with VDsTmRemove _ | VDsUnlock _ _ => False | _ => True end.
-
-Lemma nc_pc_closed cfg p p' : sc_noclear cfg = true → nc_pc p → pc_edge cfg p p' → nc_pc p'.
-Proof.
-  intros Hnc Hp He. destruct p; simpl in *; rewrite ?Hnc in He; try done;
-    repeat match goal with H : _ ∨ _ |- _ => destruct H | H : ∃ _, _ |- _ => destruct H | H : _ ∧ _ |- _ => destruct H end; subst; done.
-Qed.
-
-Lemma nc_pcs cfg s : T_svinv_reach → vreach cfg s → sc_noclear cfg = true →
-  ∀ tid t, v_thr s !! tid = Some t → nc_pc (st_pc t).
-Proof.
-  intros Hinv Hr Hnc. induction Hr as [|s it Hr IH Hok]; [intros tid t; simpl; by rewrite lookup_empty|].
-  intros tid t Ht. pose proof (vstep_thr cfg s it (Hinv _ _ Hr) tid) as Hrel. rewrite Ht in Hrel.
-  destruct (v_thr s !! tid) as [t0|] eqn:Ht0; simpl in Hrel.
-  - destruct Hrel as [_ Hle]. eapply (pc_le_closed cfg nc_pc); [intros p p'; by apply nc_pc_closed|by eapply IH|exact Hle].
-  - eapply (pc_le_closed cfg nc_pc); [intros p p'; by apply nc_pc_closed| |exact Hrel]. by destruct (st_op t).
-Qed.
-
-(** the two steps a repair of the no-clear race would merge: the check and the deletion *)
+(** the atomic check-and-delete *)
 Lemma noclear_check_step cfg s tid cn sid :
   v_thr s !! tid = Some (SThread (SConnEnd sid) VDsNoClear cn) →
   let s' := vrun_thread cfg tid (SThread (SConnEnd sid) VDsNoClear cn) s in
-  v_locks s' = v_locks s ∧ v_timers s' = v_timers s ∧ v_theap s' = v_theap s ∧ v_sess s' = v_sess s.
-Proof. intros Ht. unfold vrun_thread; cbn [st_pc st_op st_cancel]. case_match; by autorewrite with svframe. Qed.
-
-Lemma noclear_destroy_step cfg s tid cn sid : sc_noclear cfg = true →
-  v_thr s !! tid = Some (SThread (SConnEnd sid) VDsDestroy cn) →
-  let s' := vrun_thread cfg tid (SThread (SConnEnd sid) VDsDestroy cn) s in
   v_locks s' = v_locks s ∧ v_timers s' = v_timers s ∧ v_theap s' = v_theap s ∧
-  (∀ sid', sid' ≠ sid → v_sess s' !! sid' = v_sess s !! sid').
+  (v_sess s' = v_sess s ∨ (v_sess s !! sid = Some [] ∧ v_sess s' = delete sid (v_sess s))).
 Proof.
-  intros Hnc Ht. unfold vrun_thread; cbn [st_pc st_op st_cancel]. rewrite Hnc. destruct (sess_destroy cfg tid sid s) as [s1 l] eqn:Hd. pair_norm.
-  autorewrite with svframe. split_and!; try done.
-  intros sid' Hne. unfold sess_destroy. case_match; simpl; [|done]. rewrite vsave_v_sess. simpl. by rewrite lookup_delete_ne.
+  intros Ht. unfold vrun_thread; cbn [st_pc st_op st_cancel].
+  destruct (v_sess s !! sid) as [[|c l]|] eqn:Hs; try (autorewrite with svframe; split_and!; [done..|by left]).
+  unfold sess_destroy. rewrite Hs. cbn [fst]. autorewrite with svframe. split_and!; [done..|]. right. split; [done|]. first [done|by rewrite vsave_v_sess].
 Qed.
 
-Theorem C06_noclear'_from_inv : T_svinv_reach → T_C06_noclear'.
+Theorem C06_noclear_from_inv : T_svinv_reach → T_C06_noclear.
 Proof.
   intros Hinv cfg s tid t sid Hr Hnc Ht Hop s'. subst s'.
-  pose proof (nc_pcs cfg s Hinv Hr Hnc tid t Ht) as Hpc.
-  unfold vstep. rewrite (vi_not_crashed _ _ (Hinv _ _ Hr)), Ht.
+  pose proof (Hinv _ _ Hr) as HI.
+  pose proof (vi_ds_noclear _ _ HI _ _ _ Ht Hop) as Hpc. rewrite Hnc in Hpc.
+  unfold vstep. rewrite (vi_not_crashed _ _ HI), Ht.
   destruct t as [op pc cn]. simpl in Hop, Hpc. subst op.
-  destruct pc; try done; try (split_and!; [done..|by right]).
-  - (* VDsFlag *) unfold vrun_thread; cbn [st_pc st_op st_cancel]. repeat case_match; autorewrite with svframe; (split_and!; [done..|]); intros sid' c He; right;
-      unfold entry_of in *; by autorewrite with svframe.
-  - (* VDsNoClear *) destruct (noclear_check_step cfg s tid cn sid Ht) as (H1 & H2 & H3 & H4). split_and!; [done..|].
-    intros sid' c He. right. unfold entry_of in *. by rewrite H4.
-  - (* VDsDestroy *) destruct (noclear_destroy_step cfg s tid cn sid Hnc Ht) as (H1 & H2 & H3 & H4). split_and!; [done..|].
-    intros sid' c He. destruct (decide (sid' = sid)) as [->|Hne]; [by left|]. right. unfold entry_of in *. by rewrite H4.
+  assert (Hsame : ∀ s', v_sess s' = v_sess s →
+     (∀ sid' c, entry_of s sid' c → entry_of s' sid' c) ∧ (∀ sid' l, v_sess s !! sid' = Some l → l ≠ [] → v_sess s' !! sid' = Some l)).
+  { intros s' E. unfold entry_of. rewrite E. done. }
+  destruct Hpc as [->|[->| ->]].
+  - (* VDsFlag *) unfold vrun_thread; cbn [st_pc st_op st_cancel]. rewrite Hnc.
+    case_match; (split_and!; [by autorewrite with svframe..| |]); apply Hsame; by autorewrite with svframe.
+  - (* VDsNoClear *) destruct (noclear_check_step cfg s tid cn sid Ht) as (H1 & H2 & H3 & [H4|[H4 H5]]).
+    { split_and!; [done..| |]; by apply Hsame. }
+    split_and!; [done..| |].
+    + intros sid' c (l & Hl & Hc). exists l. split; [|done]. rewrite H5. rewrite lookup_delete_ne; [done|].
+      intros <-. rewrite H4 in Hl. simplify_eq. by apply elem_of_nil in Hc.
+    + intros sid' l Hl Hne. rewrite H5. rewrite lookup_delete_ne; [done|]. intros <-. rewrite H4 in Hl. by simplify_eq.
+  - (* VEnd *) unfold vrun_thread; cbn [st_pc st_op st_cancel]. split_and!; [done..| |]; by apply Hsame.
 Qed.
